@@ -104,6 +104,10 @@ def r1_end_checks(chk, prog):
                   'a normal-return path after iterateArguments() (usage not printed) skips it')
     check_loop_calls_all(chk, 'R1', prog, 'celma::prog_args::Handler', 'checkGlobalConstraints',
                          'mGlobalConstraints', 'IHandlerConstraint::checkEndCondition')
+    # the end check of the container asks EVERY argument for its cardinality verdict: an argument that got some but
+    # not all of its values (a partly filled tuple reports hasValue() == false) is refused here and nowhere else
+    check_loop_calls_all(chk, 'R1', prog, 'celma::prog_args::detail::ArgumentContainer', 'checkMandatoryCardinality',
+                         'mArguments', 'TypedArgBase::checkCardinality')
 
 
 def r2_identification(chk, prog):
